@@ -150,3 +150,153 @@ class bitmapdata_offsets:
             result[i + 1][0] == result[i][1] for i in range(0, len(color_glyphs) - 1)
         ),
     }
+
+
+# ---- one strike, one ppem: every bitmap of the strike must be of the strike's height --------
+
+
+@contract("fontTools.ttLib.newTable", props=["C14"], dep=True)
+class new_table:
+    assumed = True
+    args = {"tag": Str}
+    returns = lambda tag: Obj(tableTag=tag, strikes=Const({}))
+    ensures = {}
+    native = False
+    note = "ttLib.newTable(tag): an empty table object (for sbix: strikes = {})"
+
+
+@contract("fontTools.ttLib.tables.sbixStrike.Strike", props=["C14"], dep=True)
+class sbix_strike_ctor:
+    assumed = True
+    args = {}
+    returns = lambda: Obj(ppem=Const(0), resolution=Const(0), glyphs=Const({}))
+    ensures = {}
+    native = False
+    note = "sbix Strike(): plain attributes ppem, resolution, glyphs"
+
+
+@contract("fontTools.ttLib.tables.sbixGlyph.Glyph", props=["C14"], dep=True)
+class sbix_glyph_ctor:
+    assumed = True
+    args = {"graphicType": Str, "glyphName": Str, "imageData": PNG, "originOffsetX": Int, "originOffsetY": Int}
+    returns = lambda graphicType, glyphName, imageData, originOffsetX, originOffsetY: Obj(
+        graphicType=graphicType, glyphName=glyphName, imageData=imageData, originOffsetX=originOffsetX, originOffsetY=originOffsetY
+    )
+    ensures = {}
+    native = False
+    note = "sbix Glyph(...): keeps its keyword arguments as attributes"
+
+
+_CGB = Obj(glyph_id=Int, bitmap=PNG, bitmap_filename=Str)
+
+
+@contract("nanoemoji.bitmap_tables.make_sbix_table", props=["C14"])
+class sbix_one_ppem:
+    scope = "finite: 1..2 colour glyphs; sizes, metrics and configuration unconstrained"
+    args = {
+        "config": CFG,
+        "ttfont": Instance("spec.GhostFont", names=MapOf(Int, Str), tables=Const({})),
+        "color_glyphs": OneOf(ListOf(_CGB), ListOf(_CGB, _CGB)),
+    }
+    requires = [
+        lambda config, ttfont, color_glyphs: _sane(config)
+        and all(c.bitmap.size[0] > 0 and c.bitmap.size[1] > 0 and map_has(ttfont.names, c.glyph_id) for c in color_glyphs)
+        # the driver renders at bitmap_resolution (resvg -h); only the first is assumed to be
+        and color_glyphs[0].bitmap.size[1] == config.bitmap_resolution
+    ]
+    # a strike has one ppem; bitmaps of different pixel heights cannot share it
+    raises_if = {"AssertionError": lambda color_glyphs: any(c.bitmap.size[1] != color_glyphs[0].bitmap.size[1] for c in color_glyphs)}
+    ensures = {
+        "ppem-is-every-glyphs-ppem": lambda config, ttfont, color_glyphs: all(
+            [k for k in ttfont["sbix"].strikes] == [round(config.upem * c.bitmap.size[1] / em(config))] for c in color_glyphs
+        ),
+    }
+    native = False
+
+
+@contract("fontTools.ttLib.tables.E_B_L_C_.Strike", props=["C14"], dep=True)
+class cblc_strike_ctor:
+    assumed = True
+    args = {}
+    returns = lambda: Obj(bitmapSizeTable=Obj(), indexSubTables=Const([]))
+    ensures = {}
+    native = False
+    note = "CBLC Strike(): has a bitmapSizeTable with plain attributes"
+
+
+@contract("fontTools.ttLib.tables.E_B_L_C_.SbitLineMetrics", props=["C14"], dep=True)
+class cblc_line_metrics_ctor:
+    assumed = True
+    args = {}
+    returns = lambda: Obj()
+    ensures = {}
+    native = False
+    note = "SbitLineMetrics(): plain attributes"
+
+
+@contract("fontTools.ttLib.tables.BitmapGlyphMetrics.SmallGlyphMetrics", props=["C14"], dep=True)
+class small_metrics_ctor:
+    assumed = True
+    args = {}
+    returns = lambda: Obj()
+    ensures = {}
+    native = False
+    note = "SmallGlyphMetrics(): plain attributes"
+
+
+@contract("fontTools.ttLib.tables.C_B_D_T_.cbdt_bitmap_format_17", props=["C14"], dep=True)
+class cbdt17_ctor:
+    assumed = True
+    args = {"data": Const(b""), "ttFont": Const(None)}
+    returns = lambda: Obj()
+    ensures = {}
+    native = False
+    note = "cbdt_bitmap_format_17(b'', None): plain attributes"
+
+
+@contract("fontTools.ttLib.tables.E_B_L_C_.eblc_index_sub_table_1", props=["C14"], dep=True)
+class cblc_index1_ctor:
+    assumed = True
+    args = {"data": Const(b""), "ttFont": Opaque("font")}
+    returns = lambda: Obj()
+    ensures = {}
+    native = False
+    note = "eblc_index_sub_table_1(b'', font): plain attributes"
+
+
+_CGP = Obj(glyph_id=Int, bitmap=Instance("spec.GhostPNG", size=TupleOf(Int, Int), n=Int), bitmap_filename=Str)
+
+
+@contract("nanoemoji.bitmap_tables._make_cbdt_strike", props=["C14"])
+class cbdt_strike_one_ppem:
+    scope = "finite: 1..2 colour glyphs of consecutive glyph ids; sizes, metrics and configuration unconstrained"
+    args = {
+        "config": CFG,
+        "ttfont": Instance("spec.GhostFont", names=MapOf(Int, Str), tables=Const({})),
+        "data_offset": Int,
+        "color_glyphs": OneOf(ListOf(_CGP), ListOf(_CGP, _CGP)),
+    }
+    requires = [
+        lambda config, ttfont, color_glyphs: _sane(config)
+        and all(c.bitmap.size[0] > 0 and c.bitmap.size[1] > 0 and map_has(ttfont.names, c.glyph_id) for c in color_glyphs)
+        and all(c.bitmap.n >= 0 for c in color_glyphs)
+        and all(color_glyphs[i + 1].glyph_id == color_glyphs[i].glyph_id + 1 for i in range(0, len(color_glyphs) - 1))
+        and color_glyphs[0].bitmap.size[1] == config.bitmap_resolution
+    ]
+    raises_if = {"AssertionError": lambda color_glyphs: any(c.bitmap.size[1] != color_glyphs[0].bitmap.size[1] for c in color_glyphs)}
+    # a strike whose line height rounds to 0 (ppem 0) is rejected by util.only (StopIteration:
+    # it filters out falsy members) -- an error, as C14 asks for unrepresentable combinations
+    may_raise = ("StopIteration",)
+    ensures = {
+        "ppem-is-every-glyphs-ppem": lambda config, color_glyphs, result: all(
+            result[0].bitmapSizeTable.ppemX == round(config.upem * c.bitmap.size[1] / em(config))
+            and result[0].bitmapSizeTable.ppemY == round(config.upem * c.bitmap.size[1] / em(config))
+            for c in color_glyphs
+        ),
+        "glyph-range": lambda color_glyphs, result: result[0].bitmapSizeTable.startGlyphIndex == color_glyphs[0].glyph_id
+        and result[0].bitmapSizeTable.endGlyphIndex == color_glyphs[-1].glyph_id,
+        # line metrics of the strike: the em box at the strike's ppem
+        "line-ascender": lambda config, color_glyphs, result: result[0].bitmapSizeTable.hori.ascender
+        == round(config.ascender * round(config.upem * color_glyphs[0].bitmap.size[1] / em(config)) / config.upem),
+    }
+    native = False
